@@ -1,4 +1,10 @@
-Require Import QtlVerif.ConcDefs.
+Require Import List.
+Import ListNotations.
+Require Import QtlVerif.ConcDefs QtlVerif.SrcConc.
 Require Extraction.
 Require Import ExtrOcamlBasic.
-Extraction "conc_model.ml" accept_conc accepted_prefix a0 prop_c02_b.
+(* static facts about the translated entry points, reported by the check in its coverage *)
+Definition src_family_bracketed : bool := bracketed_family src_entry_points.
+Definition src_full_family_guarded : bool := guarded_family src_entry_points.
+Definition src_direct_and_fatal_guarded : bool := guarded_family [src_handler_sk; src_logger_fatal_sk].
+Extraction "conc_model.ml" accept_conc accepted_prefix a0 prop_c02_b src_family_bracketed src_full_family_guarded src_direct_and_fatal_guarded.
